@@ -1645,7 +1645,127 @@ func TestZZGovcReplay(t *testing.T) {
 
 `
 
-var propertyHarnessScenario = map[string]string{"C02": "C02", "C14": "C14", "C03": "C03", "C12": "C12", "C06": "C06", "C08": "C08", "C18": "C18"}
+// The registry (C15): reference map and a standard grpc.Server side by side.
+const propertyHarnessRegistry = `package grpchan_test
+
+import (
+	"context"
+	"fmt"
+	"reflect"
+	"sort"
+	"testing"
+
+	"google.golang.org/grpc"
+
+	"github.com/fullstorydev/grpchan"
+)
+
+type zzIface interface{ Do() }
+type zzImpl struct{ n int }
+
+func (zzImpl) Do() {}
+
+type zzOther struct{}
+
+func zzDesc(name string, nm, ns int) *grpc.ServiceDesc {
+	d := &grpc.ServiceDesc{ServiceName: name, HandlerType: (*zzIface)(nil), Metadata: "file_" + name + ".proto"}
+	for i := 0; i < nm; i++ {
+		d.Methods = append(d.Methods, grpc.MethodDesc{MethodName: fmt.Sprintf("M%d", i), Handler: func(srv interface{}, ctx context.Context, dec func(interface{}) error, _ grpc.UnaryServerInterceptor) (interface{}, error) {
+			return nil, nil
+		}})
+	}
+	for i := 0; i < ns; i++ {
+		d.Streams = append(d.Streams, grpc.StreamDesc{StreamName: fmt.Sprintf("S%d", i), ClientStreams: i%2 == 0, ServerStreams: i%3 != 0, Handler: func(srv interface{}, ss grpc.ServerStream) error { return nil }})
+	}
+	return d
+}
+
+func zzNormalize(in map[string]grpc.ServiceInfo) map[string]grpc.ServiceInfo {
+	out := map[string]grpc.ServiceInfo{}
+	for k, v := range in {
+		ms := append([]grpc.MethodInfo(nil), v.Methods...)
+		sort.Slice(ms, func(i, j int) bool { return ms[i].Name < ms[j].Name })
+		out[k] = grpc.ServiceInfo{Methods: ms, Metadata: v.Metadata}
+	}
+	return out
+}
+
+// Bounded search on the real registry: sequences of registrations against a reference
+// map and against what a standard grpc.Server reports for the same registrations.
+func TestZZGovcReplay(t *testing.T) {
+	shapes := [][2]int{{0, 0}, {1, 0}, {0, 1}, {2, 3}, {3, 1}}
+	for n := 0; n <= len(shapes); n++ {
+		reg := grpchan.HandlerMap{}
+		std := grpc.NewServer()
+		ref := map[string]*grpc.ServiceDesc{}
+		impls := map[string]interface{}{}
+		for i := 0; i < n; i++ {
+			d := zzDesc(fmt.Sprintf("pkg.Svc%d", i), shapes[i][0], shapes[i][1])
+			impl := zzImpl{n: i}
+			reg.RegisterService(d, impl)
+			std.RegisterService(d, impl)
+			ref[d.ServiceName], impls[d.ServiceName] = d, impl
+		}
+		// lookup
+		for name, d := range ref {
+			gd, gh := reg.QueryService(name)
+			if gd != d || gh != impls[name] {
+				t.Errorf("GOVC-REPLAY: VIOLATED %d services: QueryService(%q) = %p, %v; registered %p, %v", n, name, gd, gh, d, impls[name])
+			}
+		}
+		for _, name := range []string{"", "pkg.Svc", "pkg.Svc99", "pkg.svc0", "pkg.Svc0 "} {
+			if gd, gh := reg.QueryService(name); gd != nil || gh != nil {
+				t.Errorf("GOVC-REPLAY: VIOLATED %d services: QueryService(%q), never registered, = %v, %v", n, name, gd, gh)
+			}
+		}
+		// iteration
+		visits := map[string]int{}
+		reg.ForEach(func(d *grpc.ServiceDesc, h interface{}) {
+			visits[d.ServiceName]++
+			if ref[d.ServiceName] != d || impls[d.ServiceName] != h {
+				t.Errorf("GOVC-REPLAY: VIOLATED %d services: ForEach visited (%q, %v), which is not what was registered", n, d.ServiceName, h)
+			}
+		})
+		if len(visits) != n {
+			t.Errorf("GOVC-REPLAY: VIOLATED %d services: ForEach visited %d distinct services", n, len(visits))
+		}
+		for k, c := range visits {
+			if c != 1 {
+				t.Errorf("GOVC-REPLAY: VIOLATED %d services: ForEach visited %q %d times", n, k, c)
+			}
+		}
+		// service info against the standard server
+		if got, want := zzNormalize(reg.GetServiceInfo()), zzNormalize(std.GetServiceInfo()); !reflect.DeepEqual(got, want) {
+			t.Errorf("GOVC-REPLAY: VIOLATED %d services: GetServiceInfo = %v, a standard grpc.Server reports %v", n, got, want)
+		}
+		// refusals leave the registry intact
+		if n > 0 {
+			before := zzNormalize(reg.GetServiceInfo())
+			for what, f := range map[string]func(){
+				"a second handler for a registered name": func() { reg.RegisterService(zzDesc("pkg.Svc0", 1, 1), zzImpl{n: 77}) },
+				"a handler that does not implement the service interface": func() { reg.RegisterService(zzDesc("pkg.New", 1, 0), zzOther{}) },
+			} {
+				func() {
+					defer func() {
+						if recover() == nil {
+							t.Errorf("GOVC-REPLAY: VIOLATED %d services: registering %s was not refused by panicking", n, what)
+						}
+					}()
+					f()
+				}()
+				if after := zzNormalize(reg.GetServiceInfo()); !reflect.DeepEqual(before, after) {
+					t.Errorf("GOVC-REPLAY: VIOLATED %d services: after the refusal of %s the registry reports %v, before %v", n, what, after, before)
+				}
+				if gd, gh := reg.QueryService("pkg.Svc0"); gd != ref["pkg.Svc0"] || gh != impls["pkg.Svc0"] {
+					t.Errorf("GOVC-REPLAY: VIOLATED %d services: after the refusal of %s the earlier registration of pkg.Svc0 is %p, %v", n, what, gd, gh)
+				}
+			}
+		}
+	}
+}
+`
+
+var propertyHarnessScenario = map[string]string{"C15": "C15", "C02": "C02", "C14": "C14", "C03": "C03", "C12": "C12", "C06": "C06", "C08": "C08", "C18": "C18"}
 
 func (cc *checkCtx) propertyFallback(prop string) map[string]interface{} {
 	sc, ok := propertyHarnessScenario[prop]
@@ -1664,6 +1784,9 @@ func (cc *checkCtx) propertyFallback(prop string) map[string]interface{} {
 	res := map[string]interface{}{"attempted": false, "kind": "property-level bounded search on the real API (not derived from the solver's model)"}
 	res["inputs"] = map[string]interface{}{"scenario": sc, "scope": "HTTP and in-process channel, grpchantesting.TestServer: every code 1..18 with a detail on unary/server-stream/client-stream; request metadata with repeated keys and arbitrary -bin bytes, response headers/trailers through Header()/Trailer() and duplicated call options, trailers of a failed call; registered and fourteen unregistered or malformed method names"}
 	switch sc {
+	case "C15":
+		res["inputs"] = map[string]interface{}{"scenario": sc, "scope": "0..5 registered services of five shapes: lookup of registered and never registered names, iteration, GetServiceInfo against grpc.Server.GetServiceInfo for the same registrations, refused registrations (duplicate name, handler of the wrong type) and the registry afterwards"}
+		res = runDriver(cc, modulePath, propertyHarnessRegistry, res)
 	case "C06", "C08", "C18":
 		res["inputs"] = map[string]interface{}{"scenario": sc, "scope": "in-process channel with each of the four cloner configurations, a service whose handlers keep what they receive and return a cached message: mutation after return on either side, reused destination, messages re-sent after a change; handlers producing 0, 2, 3 responses for single-response methods; Clone/Copy of each adapter incl. populated and empty sources and destinations, dynamic <-> generated, non-message pointers"}
 		res = runDriver(cc, modulePath+"/inprocgrpc", strings.Replace(propertyHarnessInproc, "%q", fmt.Sprintf("%q", sc), 1), res)
